@@ -523,12 +523,18 @@ class StereoCondensedReactionGraph(StereoMolGraph, CondensedReactionGraph):
         mol_graphs = tuple(mol_graphs)
         graph = cls(super().compose(mol_graphs))
         for mol_graph in mol_graphs:
-            graph._atom_stereo_change.update(
-                cls(mol_graph)._atom_stereo_change
-            )
-            graph._bond_stereo_change.update(
-                cls(mol_graph)._bond_stereo_change
-            )
+            other = cls(mol_graph)
+            # merged per change: a piece that carries only part of the
+            # changes of a centre (a subgraph that cuts one descriptor) must
+            # not wipe the other changes of that centre
+            for atom, atom_changes in other._atom_stereo_change.items():
+                graph._atom_stereo_change.setdefault(
+                    atom, ChangeDict()
+                ).update(atom_changes)
+            for bond, bond_changes in other._bond_stereo_change.items():
+                graph._bond_stereo_change.setdefault(
+                    bond, ChangeDict()
+                ).update(bond_changes)
         return graph
 
     @classmethod
